@@ -9,9 +9,9 @@ TRUST = "Trusted: Coq 8.16.1 kernel (vm_compute; no native_compute), tools/extra
 
 CLAIMED = {
  "C16": dict(
-   text="Coq theorems over a byte-for-byte Gallina transcription of the frame codec: round trip for every representable frame (C16_roundtrip), totality of the reader on every byte string (C16_read_total); the model is tied to the source by regenerated constants/CRC table and by a differential codec stream (write/read/flip/mutate) against the real Frame::read/write.",
+   text="Coq theorems over a byte-for-byte Gallina transcription of the frame codec: round trip for every representable frame (C16_roundtrip), totality of the reader on every byte string (C16_read_total), and rejection of every CRC-carrying byte string of at most 1472 bytes altered in 1..4 bit positions (C16_crc_hd: linear-algebra reduction to powers of the CRC bit step plus an exhaustive search over all 1..4-bit patterns on 11776 bits evaluated by the kernel's vm_compute in 32 parallel files); the model is tied to the source by regenerated constants/CRC table and by a differential codec stream (write/read/flip/mutate) against the real Frame::read/write.",
    note=TRUST,
-   technique="Coq proof (induction over datagram/ack lists, lia over div/mod) + model/implementation differential run",
+   technique="Coq proof (induction over datagram/ack lists, lia over div/mod; certified exhaustive computation for the CRC distance) + model/implementation differential run",
    design="DESIGN.md §5 C16"),
  "C20": dict(
    text="Coq invariant proved by induction over ALL sequences of PacketSender operations (send, emit with any flush id, acknowledge with any id, fragment acks): total_size = queued bytes + window bytes, zero when both are empty, the release loop never leaves the window. HalfConnection::send_buffer_size() is that counter. Model tied to the code by the pair/tx/hostile streams (counter compared after every operation, debug+release).",
